@@ -10,6 +10,7 @@ wrapped coefficient array; that `I_k` is the integral of the cell polynomials of
 import PygyroVerif.Model.Interp
 import PygyroVerif.Lemmas.Interp
 import Mathlib.Algebra.Order.Field.Rat
+import Mathlib.Tactic.IntervalCases
 import Mathlib.Algebra.Polynomial.Derivative
 import Mathlib.Algebra.Polynomial.Eval.Defs
 
@@ -92,8 +93,19 @@ theorem weights_sum_domain_model [IsStrictOrderedRing K] (S : Space K) (hadm : S
     ∑ i ∈ range S.nbasis, w i = L :=
   weights_sum_domain M S.nbasis w _ L hw (collocation_rows_sum_one S hadm ht hcell xs M hM) hI
 
+/-- instance `Interp.Inst` (degree 2, periodic, 3 unit cells): monotone knots, non-degenerate cells, weights `(1,1,1)` solve
+    `Mᵀ w = (1,1,1)` and the right-hand side sums to the domain length 3 -/
 example : ∑ i ∈ range Inst.S.nbasis, (fun _ => (1 : ℚ)) i = 3 := by
-  simp [Inst.hnb]
+  refine weights_sum_domain_model Inst.S Inst.hadm Inst.tmono Inst.hcell Inst.xs Inst.M Inst.hM (fun _ => 1) (fun k => if k = 2 then 1 else 1/2) 3
+    (fun j hj => ?_) ?_
+  · obtain ⟨a, b, c, d, e, f, g, h, k⟩ := Inst.hM_entries
+    rw [Inst.hnb] at hj ⊢
+    interval_cases j <;> simp [matTVec, basisQuads, Inst.S, sum_range_succ, *] <;> norm_num
+  · rw [Inst.hnb]
+    simp [basisQuads, Inst.S, sum_range_succ]; norm_num
+
+example : ∀ i, i < Inst.S.nbasis → ∑ j ∈ range Inst.S.nbasis, Inst.M i j = 1 :=
+  collocation_rows_sum_one Inst.S Inst.hadm Inst.tmono Inst.hcell Inst.xs Inst.M Inst.hM
 
 /-! ### periodic spaces: the two parts of a wrapped basis function -/
 
@@ -123,6 +135,9 @@ theorem periodic_full_integral (S : Space K) (hper : S.periodic = true) (hadm : 
   rw [← hb]
   ring
 
+example : fullIntegral Inst.S 1 = 1 := by
+  rw [fullIntegral_eq Inst.S 1 (by decide)]; norm_num [Inst.S]
+
 /-- for exactly periodic knots (`t_{n+k} = t_k + L`, `k ≤ p`) the full integrals of the `n` periodic basis functions sum to `L` -/
 theorem periodic_full_sum [IsStrictOrderedRing K] (t : ℕ → K) (d n : ℕ) (L : K) (hper : ∀ k, k ≤ d → t (n + k) = t k + L) :
     ∑ i ∈ range n, (t (i + d + 1) - t i) * (1 / ((d : K) + 1)) = L := by
@@ -133,6 +148,9 @@ theorem periodic_full_sum [IsStrictOrderedRing K] (t : ℕ → K) (d n : ℕ) (L
   have hd : ((d : K) + 1) ≠ 0 := Nat.cast_add_one_ne_zero d
   push_cast
   field_simp
+
+example : ∑ i ∈ range 3, ((fun i : ℕ => (i : ℚ) - 2) (i + 2 + 1) - (fun i : ℕ => (i : ℚ) - 2) i) * (1 / ((2 : ℕ) + 1 : ℚ)) = 3 :=
+  periodic_full_sum (fun i : ℕ => (i : ℚ) - 2) 2 3 3 (fun k _ => by push_cast; ring)
 
 /-! ### uniform periodic spaces: equal weights (partial) -/
 
@@ -170,6 +188,14 @@ example : ∀ i j, i < 3 → j < 3 → Inst.M ((i + 1) % 3) ((j + 1) % 3) = Inst
   intro i j hi hj
   interval_cases i <;> interval_cases j <;> simp [*]
 
+/-- all hypotheses hold for `Interp.Inst.M` with right-hand side `1` (`L = 3`): every weight is `3/3` -/
+example (w : ℕ → ℚ) (hw : ∀ j, j < 3 → matTVec Inst.M 3 w j = 1) : ∀ i, i < 3 → w i = 3 / (3 : ℕ) := by
+  refine uniform_periodic_equal_weights_partial 3 (by decide) Inst.M w 1 3 ?_ Inst.hinjT hw ?_ (by norm_num) (by norm_num)
+  · obtain ⟨a, b, c, d, e, f, g, h, k⟩ := Inst.hM_entries
+    intro i j hi hj
+    interval_cases i <;> interval_cases j <;> simp [*]
+  · simpa [Inst.hnb] using collocation_rows_sum_one Inst.S Inst.hadm Inst.tmono Inst.hcell Inst.xs Inst.M Inst.hM
+
 /-! ### the degree-raising expression is the integral (statement only) -/
 
 open Polynomial in
@@ -200,6 +226,11 @@ theorem old_mirror_wrong :
     (List.range 3).map (integralsGeneralOld nonUniformPeriodic) = [some (1/2), some (3/2), some (1/2)] ∧
     (List.range 3).map (integralsGeneral nonUniformPeriodic) = [some (1/2), some (3/2), some 1] := by
   constructor <;> decide +kernel
+
+/-- `periodic_full_integral` on the non-uniform periodic space: `1/2 + 1 = 3/2 = (t_2 - t_0)/2` -/
+example : (1/2 : ℚ) + 1 = fullIntegral nonUniformPeriodic 0 :=
+  periodic_full_integral nonUniformPeriodic rfl ⟨by decide, by decide, fun _ => by decide⟩ 0 (by decide) (1/2) 1
+    (by decide +kernel) (by decide +kernel)
 
 /-- F5b: clamped uniform cubic, one cell of width 1: the unpatched code stores 1/24, 23/24, 23/24, 1/24 (sum 2), the repaired model the
     integrals 1/24, 11/24, 11/24, 1/24 of the four cubic pieces (sum 1); two cells: 23/24 instead of 22/24 in the middle -/
